@@ -28,8 +28,16 @@ class InjectedFault(Exception):
     pass
 
 
+class StrictInit(Exception):
+    """A user exception whose constructor takes exactly one argument (cannot be re-built with extra context)."""
+
+    def __init__(self, step):
+        super().__init__(step)
+        self.step = step
+
+
 RAISE = {"InjectedFault": InjectedFault, "ValueError": ValueError, "KeyError": KeyError, "ZeroDivisionError": ZeroDivisionError,
-         "LinAlgError": np.linalg.LinAlgError, "InjectedFault()": InjectedFault, "AssertionError()": AssertionError}
+         "LinAlgError": np.linalg.LinAlgError, "InjectedFault()": InjectedFault, "AssertionError()": AssertionError, "StrictInit": StrictInit}
 BAD_VALUES = {"nan": float("nan"), "+inf": float("inf"), "-inf": float("-inf"), "complex": complex(1.0, 2.0),
               "vector2": np.array([1.0, 2.0]), "list2": [1.0, 2.0], "none": None}
 BAD_PAIRS = {"bare-scalar": 1.5, "tuple3": (1.0, 1.0, 1.0), "sd0": (1.0, 0.0), "sd-neg": (1.0, -1.0), "sd-nan": (1.0, float("nan")),
